@@ -30,6 +30,44 @@ static struct aws_json_value *s_get(const char *name) {
     return i < 0 ? NULL : s_slot[i].v;
 }
 
+/* "name/k<hex>/i<n>/...": a slot and a path of getter steps into it (a borrowed pointer) */
+static bool s_root_is(const char *ref, const char *name) {
+    size_t n = strcspn(ref, "/");
+    return strlen(name) == n && !strncmp(ref, name, n);
+}
+
+static bool s_plain(const char *name) {
+    return strchr(name, '/') == NULL;
+}
+
+static struct aws_json_value *s_ref(const char *ref) {
+    char buf[4096];
+    if (strlen(ref) >= sizeof(buf) || ref[0] == '/') {
+        return NULL;
+    }
+    strcpy(buf, ref);
+    char *save = NULL;
+    char *tok = strtok_r(buf, "/", &save);
+    if (!tok) {
+        return NULL;
+    }
+    struct aws_json_value *v = s_get(tok);
+    while (v && (tok = strtok_r(NULL, "/", &save))) {
+        if (tok[0] == 'k') {
+            size_t n = 0;
+            uint8_t *k = hc_hex_decode(tok + 1, &n);
+            v = aws_json_value_is_object(v) ? aws_json_value_get_from_object(v, aws_byte_cursor_from_array(k, n)) : NULL;
+            free(k);
+        } else if (tok[0] == 'i') {
+            v = aws_json_value_is_array(v) ? aws_json_get_array_element(v, hc_parse_size(tok + 1)) : NULL;
+        } else {
+            v = NULL;
+        }
+    }
+    aws_reset_error();
+    return v;
+}
+
 static void s_del(const char *name, bool destroy) {
     int i = s_find(name);
     if (i >= 0) {
@@ -175,6 +213,7 @@ int main(void) {
         aws_reset_error();
         if (!strcmp(t[0], "case")) {
             s_reset();
+            s_base_blocks = hc_live_blocks(); /* a leak is charged to the case that leaks, not to the ones after it */
             hc_case_begin(t[1]);
         } else if (!strncmp(t[0], "hint_", 5) && n == 3) {
             /* model side only */
@@ -195,24 +234,24 @@ int main(void) {
             double d;
             memcpy(&d, &b, 8);
             s_set(t[1], aws_json_value_new_number(al, d));
-        } else if (!strcmp(t[0], "add") && n == 4 && s_get(t[1]) && s_get(t[3]) && strcmp(t[1], t[3])) {
-            int rc = aws_json_value_add_to_object(s_get(t[1]), s_cur(t[2], &own), s_get(t[3]));
+        } else if (!strcmp(t[0], "add") && n == 4 && s_ref(t[1]) && s_get(t[3]) && !s_root_is(t[1], t[3])) {
+            int rc = aws_json_value_add_to_object(s_ref(t[1]), s_cur(t[2], &own), s_get(t[3]));
             if (rc == AWS_OP_SUCCESS) {
                 printf("P add OK\n");
                 s_del(t[3], false); /* now owned by the object */
             } else {
                 printf("P add ERR %s\n", s_raised());
             }
-        } else if (!strcmp(t[0], "arr_add") && n == 3 && s_get(t[1]) && s_get(t[2]) && strcmp(t[1], t[2])) {
-            int rc = aws_json_value_add_array_element(s_get(t[1]), s_get(t[2]));
+        } else if (!strcmp(t[0], "arr_add") && n == 3 && s_ref(t[1]) && s_get(t[2]) && !s_root_is(t[1], t[2])) {
+            int rc = aws_json_value_add_array_element(s_ref(t[1]), s_get(t[2]));
             if (rc == AWS_OP_SUCCESS) {
                 printf("P arr_add OK\n");
                 s_del(t[2], false);
             } else {
                 printf("P arr_add ERR %s\n", s_raised());
             }
-        } else if (!strcmp(t[0], "get") && n == 3 && s_get(t[1])) {
-            struct aws_json_value *r = aws_json_value_get_from_object(s_get(t[1]), s_cur(t[2], &own));
+        } else if (!strcmp(t[0], "get") && n == 3 && s_ref(t[1])) {
+            struct aws_json_value *r = aws_json_value_get_from_object(s_ref(t[1]), s_cur(t[2], &own));
             if (r) {
                 printf("P get ");
                 s_dump(r);
@@ -220,25 +259,25 @@ int main(void) {
             } else {
                 printf("P get NULL %s\n", s_raised());
             }
-        } else if (!strcmp(t[0], "dupget") && n == 4 && s_get(t[1]) && strcmp(t[1], t[3])) {
-            struct aws_json_value *r = aws_json_value_get_from_object(s_get(t[1]), s_cur(t[2], &own));
+        } else if (!strcmp(t[0], "dupget") && n == 4 && s_ref(t[1]) && !s_root_is(t[1], t[3]) && s_plain(t[3])) {
+            struct aws_json_value *r = aws_json_value_get_from_object(s_ref(t[1]), s_cur(t[2], &own));
             if (r) {
                 s_set(t[3], aws_json_value_duplicate(r));
                 printf("P dupget OK\n");
             } else {
                 printf("P dupget NULL %s\n", s_raised());
             }
-        } else if (!strcmp(t[0], "has") && n == 3 && s_get(t[1])) {
-            printf("P has %d\n", (int)aws_json_value_has_key(s_get(t[1]), s_cur(t[2], &own)));
-        } else if (!strcmp(t[0], "remove") && n == 3 && s_get(t[1])) {
-            int rc = aws_json_value_remove_from_object(s_get(t[1]), s_cur(t[2], &own));
+        } else if (!strcmp(t[0], "has") && n == 3 && s_ref(t[1])) {
+            printf("P has %d\n", (int)aws_json_value_has_key(s_ref(t[1]), s_cur(t[2], &own)));
+        } else if (!strcmp(t[0], "remove") && n == 3 && s_ref(t[1])) {
+            int rc = aws_json_value_remove_from_object(s_ref(t[1]), s_cur(t[2], &own));
             if (rc == AWS_OP_SUCCESS) {
                 printf("P remove OK\n");
             } else {
                 printf("P remove ERR %s\n", s_raised());
             }
-        } else if (!strcmp(t[0], "arr_get") && n == 3 && s_get(t[1])) {
-            struct aws_json_value *r = aws_json_get_array_element(s_get(t[1]), hc_parse_size(t[2]));
+        } else if (!strcmp(t[0], "arr_get") && n == 3 && s_ref(t[1])) {
+            struct aws_json_value *r = aws_json_get_array_element(s_ref(t[1]), hc_parse_size(t[2]));
             if (r) {
                 printf("P arr_get ");
                 s_dump(r);
@@ -246,44 +285,44 @@ int main(void) {
             } else {
                 printf("P arr_get NULL %s\n", s_raised());
             }
-        } else if (!strcmp(t[0], "dupat") && n == 4 && s_get(t[1]) && strcmp(t[1], t[3])) {
-            struct aws_json_value *r = aws_json_get_array_element(s_get(t[1]), hc_parse_size(t[2]));
+        } else if (!strcmp(t[0], "dupat") && n == 4 && s_ref(t[1]) && !s_root_is(t[1], t[3]) && s_plain(t[3])) {
+            struct aws_json_value *r = aws_json_get_array_element(s_ref(t[1]), hc_parse_size(t[2]));
             if (r) {
                 s_set(t[3], aws_json_value_duplicate(r));
                 printf("P dupat OK\n");
             } else {
                 printf("P dupat NULL %s\n", s_raised());
             }
-        } else if (!strcmp(t[0], "arr_remove") && n == 3 && s_get(t[1])) {
-            int rc = aws_json_value_remove_array_element(s_get(t[1]), hc_parse_size(t[2]));
+        } else if (!strcmp(t[0], "arr_remove") && n == 3 && s_ref(t[1])) {
+            int rc = aws_json_value_remove_array_element(s_ref(t[1]), hc_parse_size(t[2]));
             if (rc == AWS_OP_SUCCESS) {
                 printf("P arr_remove OK\n");
             } else {
                 printf("P arr_remove ERR %s\n", s_raised());
             }
-        } else if (!strcmp(t[0], "arr_size") && n == 2 && s_get(t[1])) {
-            size_t sz = aws_json_get_array_size(s_get(t[1]));
+        } else if (!strcmp(t[0], "arr_size") && n == 2 && s_ref(t[1])) {
+            size_t sz = aws_json_get_array_size(s_ref(t[1]));
             printf("P arr_size %zu %s\n", sz, s_raised());
-        } else if (!strcmp(t[0], "dup") && n == 3 && s_get(t[1]) && strcmp(t[1], t[2])) {
-            s_set(t[2], aws_json_value_duplicate(s_get(t[1])));
+        } else if (!strcmp(t[0], "dup") && n == 3 && s_ref(t[1]) && !s_root_is(t[1], t[2]) && s_plain(t[2])) {
+            s_set(t[2], aws_json_value_duplicate(s_ref(t[1])));
             printf("P dup OK\n");
-        } else if (!strcmp(t[0], "cmp") && n == 4 && s_get(t[1]) && s_get(t[2]) && (!strcmp(t[3], "0") || !strcmp(t[3], "1"))) {
-            printf("P cmp %d\n", (int)aws_json_value_compare(s_get(t[1]), s_get(t[2]), t[3][0] == '1'));
-        } else if (!strcmp(t[0], "print") && n == 3 && s_get(t[1]) && s_fmt(t[2], &(bool){0})) {
+        } else if (!strcmp(t[0], "cmp") && n == 4 && s_ref(t[1]) && s_ref(t[2]) && (!strcmp(t[3], "0") || !strcmp(t[3], "1"))) {
+            printf("P cmp %d\n", (int)aws_json_value_compare(s_ref(t[1]), s_ref(t[2]), t[3][0] == '1'));
+        } else if (!strcmp(t[0], "print") && n == 3 && s_ref(t[1]) && s_fmt(t[2], &(bool){0})) {
             bool fmt = false;
             struct aws_byte_buf out;
             s_fmt(t[2], &fmt);
-            s_print_to(s_get(t[1]), fmt, &out);
+            s_print_to(s_ref(t[1]), fmt, &out);
             HC_CHECK(memchr(out.buffer, 0, out.len) == NULL);
             printf("W text ");
             hc_put_hex(out.buffer, out.len);
             printf("\n");
             aws_byte_buf_clean_up(&out);
-        } else if (!strcmp(t[0], "reparse") && n == 4 && s_get(t[1]) && s_fmt(t[2], &(bool){0}) && strcmp(t[1], t[3])) {
+        } else if (!strcmp(t[0], "reparse") && n == 4 && s_ref(t[1]) && s_fmt(t[2], &(bool){0}) && !s_root_is(t[1], t[3]) && s_plain(t[3])) {
             bool fmt = false;
             struct aws_byte_buf out;
             s_fmt(t[2], &fmt);
-            s_print_to(s_get(t[1]), fmt, &out);
+            s_print_to(s_ref(t[1]), fmt, &out);
             /* exact-size copy without terminator: reading past the cursor is an ASan error */
             uint8_t *copy = malloc(out.len ? out.len : 1);
             memcpy(copy, out.buffer, out.len);
@@ -297,7 +336,7 @@ int main(void) {
                 s_del(t[3], true);
                 printf("P reparse NULL\n");
             }
-        } else if (!strcmp(t[0], "parse") && n == 3) {
+        } else if (!strcmp(t[0], "parse") && n == 3 && s_plain(t[1])) {
             struct aws_json_value *r = aws_json_value_new_from_string(al, s_cur(t[2], &own));
             if (r) {
                 s_set(t[1], r);
@@ -306,12 +345,12 @@ int main(void) {
                 s_del(t[1], true);
                 printf("P parse NULL\n");
             }
-        } else if (!strcmp(t[0], "dump") && n == 2 && s_get(t[1])) {
+        } else if (!strcmp(t[0], "dump") && n == 2 && s_ref(t[1])) {
             printf("P dump ");
-            s_dump(s_get(t[1]));
+            s_dump(s_ref(t[1]));
             printf("\n");
-        } else if (!strcmp(t[0], "type") && n == 2 && s_get(t[1])) {
-            struct aws_json_value *v = s_get(t[1]);
+        } else if (!strcmp(t[0], "type") && n == 2 && s_ref(t[1])) {
+            struct aws_json_value *v = s_ref(t[1]);
             struct aws_byte_cursor c;
             double d = 0;
             bool b = false;
